@@ -188,6 +188,7 @@ static const char *ALLSYNN[5] = { "der", "oer", "uper", "xer", "cxer" };
 NI static void try_encoders(asn_TYPE_descriptor_t *td, void *r, const char *what, int ni, struct xres *R) {
     char lab[160];
     for(int e = 0; e < 5; e++) {
+        if(pm_masked(ALLSYNN[e])) continue;
         snprintf(lab, sizeof lab, "c:%s@node%d(%s):%s", what, ni, nodes[ni].td->name, ALLSYNN[e]); if(cur_label(lab)) continue;
         errno = 0;
         asn_enc_rval_t er = asn_encode(0, ALLSYN[e], td, r, null_cb, 0);
@@ -222,12 +223,6 @@ NI static void corrupt_mode(asn_TYPE_descriptor_t *td, const unsigned char *in, 
             choice_set_present(N->td, N->ptr, 0); try_encoders(td, r, "choice_unselected", ni, R); R->kinds[6]++;
             choice_set_present(N->td, N->ptr, N->td->elements_count + 1); try_encoders(td, r, "choice_out_of_range", ni, R); R->kinds[6]++;
             choice_set_present(N->td, N->ptr, pr);
-            break; }
-        case NK_OCTSTR: case NK_BITSTR: case NK_INTEGER: {
-            OCTET_STRING_t *O = N->ptr; if(!O->buf || O->size == 0) break;
-            uint8_t *ob = O->buf; O->buf = 0;
-            try_encoders(td, r, "buf_null_size_nonzero", ni, R); R->kinds[7]++;
-            O->buf = ob;
             break; }
         default: break;
         }
